@@ -6,6 +6,7 @@ import (
 	"strings"
 	"sync"
 	"sync/atomic"
+	"time"
 
 	"github.com/vicanso/pike/cache"
 	"github.com/vicanso/pike/config"
@@ -157,6 +158,48 @@ func c06(r *hx.Run) {
 		return true
 	})
 	r.Sample(map[string]interface{}{"keys_sample": keys[:8], "forced_same_shard_sample": keys[len(keys)-4:]})
+	// store-backed cache, step by step: fill, let everything expire, refetch under concurrency (records
+	// are written again), evict, read back through the store
+	{
+		addr := srvAddr(ports[storeIdx])
+		check := func(phase string, k c06Key, res *hx.Result) {
+			requests.Add(1)
+			if res.Err != nil || res.Status != 200 {
+				r.Violate("request_failed", nil, fmt.Sprintf("%s: status %d err %v", phase, res.Status, res.Err), res.Brief(), k)
+				return
+			}
+			if em, eh, eu := res.Header.Get("X-Echo-Method"), res.Header.Get("X-Echo-Host"), res.Header.Get("X-Echo-Uri"); em != k.Method || eh != k.Host || eu != k.URI {
+				r.Violate("response_of_another_key", map[string]string{"via": "headers", "phase": phase}, fmt.Sprintf("requested %s %s %.80s but the stored response belongs to %s %s %.80s", k.Method, k.Host, k.URI, em, eh, eu), res.Brief(), k)
+			}
+		}
+		all := func(phase string, ks []c06Key) {
+			var wg sync.WaitGroup
+			sem := make(chan struct{}, 24)
+			for _, k := range ks {
+				wg.Add(1)
+				sem <- struct{}{}
+				go func(k c06Key) {
+					defer wg.Done()
+					defer func() { <-sem }()
+					check(phase, k, w.Cl.Do(hx.Req{Method: k.Method, Addr: addr, Host: k.Host, URI: k.URI}))
+				}(k)
+			}
+			wg.Wait()
+		}
+		rounds := r.Pick(3, 40)
+		for round := 0; round < rounds && !r.TooMany(); round++ {
+			ks := make([]c06Key, 0, 48)
+			for i := 0; i < 48; i++ {
+				ks = append(ks, c06Key{"GET", "s.example", fmt.Sprintf("/store/%d/%d", round, i)})
+			}
+			all("fill", ks)
+			time.Sleep(2100 * time.Millisecond) // lifetime is 1 s: everything has expired
+			all("refetch_after_expiry", ks)
+			all("reload_after_eviction", ks) // 48 keys in 16 slots: most were evicted and come back through the store
+			all("reload_after_eviction", ks)
+			r.Add("store_refetch_rounds", 1)
+		}
+	}
 	// dispatcher level: entry identity per key string
 	d := cache.NewDispatcher(cache.DispatcherOption{Name: "ident", Size: 4000000})
 	n := r.Pick(300000, 1000000)
